@@ -28,6 +28,13 @@ pub struct Kept {
     pub trees: Vec<Treap<It>>,
 }
 
+/// a treap with the given root, without naming any other field the struct may have
+pub fn treap_of(root: Option<Box<TreapNode<It>>>) -> Treap<It> {
+    let mut t = Treap::new();
+    t.root = root;
+    t
+}
+
 pub fn render_all(trees: &[Treap<It>]) -> Vec<String> {
     let mut out = vec![];
     for t in trees {
@@ -85,6 +92,13 @@ pub fn script(t: u32, k: usize, serial: Option<Arc<Mutex<()>>>) -> (ThreadResult
 /// created theirs (free-running pass only): whatever the library registers per thread at its first node
 /// creation exists for ALL threads before any of them creates its second node.
 pub fn script_rv(t: u32, k: usize, serial: Option<Arc<Mutex<()>>>, rendezvous: Option<(Arc<Mutex<usize>>, usize)>) -> (ThreadResult, Kept) {
+    script_gift(t, k, serial, rendezvous, None)
+}
+
+/// `gift`: thread 1 creates a two-element treap and hands it over through the slot; thread 2 waits for it,
+/// owns it from then on and inserts into it while thread 1 goes on creating nodes of its own: a treap that
+/// was MOVED between threads is thread-owned like any other (free-running pass only).
+pub fn script_gift(t: u32, k: usize, serial: Option<Arc<Mutex<()>>>, rendezvous: Option<(Arc<Mutex<usize>>, usize)>, gift: Option<Arc<Mutex<Option<Treap<It>>>>>) -> (ThreadResult, Kept) {
     macro_rules! op {
         ($e:expr) => {{
             let _g = serial.as_ref().map(|m| m.lock().unwrap_or_else(|e| e.into_inner()));
@@ -92,8 +106,29 @@ pub fn script_rv(t: u32, k: usize, serial: Option<Arc<Mutex<()>>>, rendezvous: O
         }};
     }
     let mut prios = vec![];
+    let mut moved_in: Option<Treap<It>> = None;
+    if let Some(slot) = &gift {
+        if t == 1 {
+            let mut g = Treap::from_item(It { val: 9000, size: 1 });
+            g.insert_at(1, It { val: 9001, size: 1 });
+            *slot.lock().unwrap_or_else(|e| e.into_inner()) = Some(g);
+        } else if t == 2 {
+            loop {
+                if let Some(g) = slot.lock().unwrap_or_else(|e| e.into_inner()).take() {
+                    moved_in = Some(g);
+                    break;
+                }
+                thread::yield_now();
+            }
+        }
+    }
     let mut tr: Treap<It> = Treap::new();
     for i in 0..(k - 1) as u32 {
+        if let Some(g) = moved_in.as_mut() {
+            // the new owner works on the treap it was given while its creator creates nodes
+            g.insert_at(1, It { val: 9100 + i, size: 1 });
+            thread::yield_now();
+        }
         let node = op!(Treap::from_item(It { val: t * 100 + i, size: 1 }));
         prios.push(node.root.as_ref().unwrap().priority);
         if i == 0 {
@@ -107,6 +142,13 @@ pub fn script_rv(t: u32, k: usize, serial: Option<Arc<Mutex<()>>>, rendezvous: O
         thread::yield_now();
         tr = op!(Treap::merge(tr, node));
         thread::yield_now();
+    }
+    if let Some(mut g) = moved_in.take() {
+        let got: Vec<u32> = g.collect().iter().map(|x| x.val).collect();
+        let mut want = vec![9000];
+        want.extend((0..(k - 1) as u32).rev().map(|i| 9100 + i));
+        want.push(9001);
+        assert!(got == want, "the treap that was created on thread 1 and moved to this thread holds {:?}, expected {:?}", got, want);
     }
     // insert_at creates a node as well
     let ins = t * 100 + 50;
@@ -124,7 +166,8 @@ pub fn script_rv(t: u32, k: usize, serial: Option<Arc<Mutex<()>>>, rendezvous: O
     let last = tr.last().map_or(u32::MAX, |x| x.val);
     let seq: Vec<u32> = tr.collect().iter().map(|x| x.val).collect();
     // three single nodes with the same hand-set priority (struct literal: nothing is drawn)
-    let tied = |v: u32| Treap { root: Some(Box::new(TreapNode { item: It { val: v, size: 1 }, priority: 7, left: None, right: None })) };
+    // (no struct literal of Treap: only its `root` field is relied upon)
+    let tied = |v: u32| treap_of(Some(Box::new(TreapNode { item: It { val: v, size: 1 }, priority: 7, left: None, right: None })));
     let ab = op!(Treap::merge(tied(1), tied(2)));
     thread::yield_now();
     let abc = op!(Treap::merge(ab, tied(3)));
@@ -153,7 +196,11 @@ pub fn script_caught(t: u32, k: usize, serial: Option<Arc<Mutex<()>>>) -> (Threa
 }
 
 pub fn script_caught_rv(t: u32, k: usize, serial: Option<Arc<Mutex<()>>>, rendezvous: Option<(Arc<Mutex<usize>>, usize)>) -> (ThreadResult, Kept) {
-    match std::panic::catch_unwind(std::panic::AssertUnwindSafe(|| script_rv(t, k, serial, rendezvous))) {
+    script_caught_gift(t, k, serial, rendezvous, None)
+}
+
+pub fn script_caught_gift(t: u32, k: usize, serial: Option<Arc<Mutex<()>>>, rendezvous: Option<(Arc<Mutex<usize>>, usize)>, gift: Option<Arc<Mutex<Option<Treap<It>>>>>) -> (ThreadResult, Kept) {
+    match std::panic::catch_unwind(std::panic::AssertUnwindSafe(|| script_gift(t, k, serial, rendezvous, gift))) {
         Ok(r) => r,
         Err(p) => {
             let msg = p.downcast_ref::<String>().cloned().or_else(|| p.downcast_ref::<&str>().map(|s| s.to_string())).unwrap_or_else(|| "panic".into());
@@ -178,7 +225,7 @@ pub fn tall_script(t: u32, n: usize, serial: Option<Arc<Mutex<()>>>) -> (ThreadR
     for i in (0..n).rev() {
         root = Some(Box::new(TreapNode { item: It { val: base + i as u32, size: n - i }, priority: 10 + i as u32, left: None, right: root }));
     }
-    let tr = Treap { root };
+    let tr = treap_of(root);
     thread::yield_now();
     let (a, b) = op!(tr.split_at(n / 2));
     thread::yield_now();
@@ -255,6 +302,10 @@ pub fn run_any(threads: u32, k: usize, serial: bool, cold: bool, tall: usize) ->
 }
 
 pub fn run_full(threads: u32, k: usize, serial: bool, cold: bool, tall: usize, rendezvous: bool) -> Outcome {
+    run_gift(threads, k, serial, cold, tall, rendezvous, false)
+}
+
+pub fn run_gift(threads: u32, k: usize, serial: bool, cold: bool, tall: usize, rendezvous: bool, gift: bool) -> Outcome {
     let lock = if serial { Some(Arc::new(Mutex::new(()))) } else { None };
     let main = if cold {
         0
@@ -262,12 +313,14 @@ pub fn run_full(threads: u32, k: usize, serial: bool, cold: bool, tall: usize, r
         thread::spawn(|| std::panic::catch_unwind(|| TreapNode::new(It { val: 0, size: 1 }).priority).unwrap_or(u32::MAX)).join().unwrap()
     };
     let counter = Arc::new(Mutex::new(0usize));
+    let slot: Arc<Mutex<Option<Treap<It>>>> = Arc::new(Mutex::new(None));
     let hs: Vec<_> = (1..=threads)
         .map(|t| {
             let l = lock.clone();
             let rv = if rendezvous { Some((counter.clone(), threads as usize)) } else { None };
+            let gf = if gift && threads >= 2 { Some(slot.clone()) } else { None };
             // tall treaps recurse as deep as they are tall
-            thread::Builder::new().stack_size(4 << 20).spawn(move || if tall > 0 { tall_caught(t, tall, l) } else { script_caught_rv(t, k, l, rv) }).unwrap()
+            thread::Builder::new().stack_size(4 << 20).spawn(move || if tall > 0 { tall_caught(t, tall, l) } else { script_caught_gift(t, k, l, rv, gf) }).unwrap()
         })
         .collect();
     let mut results: Vec<(ThreadResult, Kept)> = hs.into_iter().map(|h| h.join().unwrap()).collect();
